@@ -62,7 +62,8 @@ Section DropLeaf.
     alookup q (hnodes h') = Some (mkHN (hname hq) (hcom hq) (del_nth (length l1) (hneigh hq)) (del_nth (length l1) (hbr hq))) /\
     length (hneigh hq) = S (length (l1 ++ l2)) /\ hroot h' = hroot h /\
     (forall y, y <> q -> y <> x -> alookup y (hnodes h') = alookup y (hnodes h)) /\
-    (forall y, y <> ex -> alookup y (hedges h') = alookup y (hedges h)).
+    (forall y, y <> ex -> alookup y (hedges h') = alookup y (hedges h)) /\
+    alookup x (hnodes h') = None.
   Proof.
     destruct DL_facts as (hq & hx & c1 & c2 & Hq & Hx & Ec & Lc & F1 & F2 & A4 & A2 & A3 & Hng & Hbr & Hex & Nqx).
     pose proof (Rep_Good h lt R) as G.
@@ -83,7 +84,7 @@ Section DropLeaf.
     { intros y Y. rewrite Ed2. destruct (Nat.eqb_spec y ex); [contradiction|]. rewrite Ed1. reflexivity. }
     assert (Lhq : length (hneigh hq) = S (length (l1 ++ l2))).
     { rewrite <- (slots_of_fst hq A4), map_length, Ec, !app_length. cbn [length]. rewrite (Forall2_length' _ _ _ F1), (Forall2_length' _ _ _ F2). lia. }
-    exists h', hq. split; [exact S2|]. split; [|repeat split; try assumption; congruence].
+    exists h', hq. split; [exact S2|]. split; [|repeat split; try assumption; try congruence; rewrite Nd2, Nat.eqb_refl; reflexivity].
     (* ids of the sub-node *)
     assert (Nd : NoDup (lids sub)) by (eapply lsubs_NoDup; [exact (rep_nd _ _ R)|exact Hsub]).
     pose proof (shape_lsubs _ _ _ _ _ _ (rep_shape _ _ R) Hsub) as Shsub.
@@ -498,3 +499,584 @@ Section Splice.
       destruct (Nat.eqb_spec y (hnexte h)) as [E1|_]; [lia|]. apply (rep_edges _ _ R), (rep_fe _ _ R) in Hy. lia.
   Qed.
 End Splice.
+
+(** * removeTip: the tail of the function (Case 2 / Case 3), and the function in pieces *)
+Local Open Scope string_scope.
+Definition suppress_tail (tipname : string) (internal : nat) (h : heap) : hres heap :=
+  do hi <- get_node h internal;
+  if Nat.eqb (length (hneigh hi)) 2 then
+    do n1 <- nth_res (hneigh hi) 0;
+    do n2 <- nth_res (hneigh hi) 1;
+    do b1 <- nth_res (hbr hi) 0;
+    do b2 <- nth_res (hbr hi) 1;
+    do bd1 <- get_edge h b1;
+    do bd2 <- get_edge h b2;
+    let length1 := elen (hinfo bd1) in
+    let length2 := elen (hinfo bd2) in
+    let sup1 := esup (hinfo bd1) in
+    let sup2 := esup (hinfo bd2) in
+    let dir1 := Nat.eqb (hleft bd1) n1 in
+    let dir2 := Nat.eqb (hright bd2) n2 in
+    do h <- del_neighbor n1 internal h;
+    do h <- del_neighbor n2 internal h;
+    do hn1 <- get_node h n1;
+    do hn2 <- get_node h n2;
+    do (e, h) <-
+       (if dir1 && dir2 then connect_nodes n1 n2 h
+        else if negb dir1 && negb dir2 then connect_nodes n2 n1 h
+        else if negb dir1 && dir2 then
+          if negb (Nat.eqb (hroot h) internal)
+          then HErr ("The tree root is not the internal node, but it should be, while removing tip " ++ tipname)
+          else if Nat.ltb 1 (length (hneigh hn1)) then
+            do (e, h) <- connect_nodes n1 n2 h; HOk (e, set_root h n1)
+          else if Nat.ltb 1 (length (hneigh hn2)) then
+            do (e, h) <- connect_nodes n2 n1 h; HOk (e, set_root h n2)
+          else if Nat.eqb (length (hneigh hn2)) 1 || Nat.eqb (length (hneigh hn1)) 1 then
+            HErr ("After removing the tip " ++ tipname ++ " connected to the root, RemoveTip could not find a new node to set as a root (the children of the root are either tips or single nodes). You can run gotree collapse single or call RemoveSingleNodes.")
+          else HErr ("The tree after tip removal is only made of two tips after removing tip " ++ tipname)
+        else HErr ("Branches of internal node are not oriented as they should be while removing tip " ++ tipname));
+    do h <- (if negb (qeqb length1 nilv) || negb (qeqb length2 nilv)
+             then set_info h e (fun i => mkE (qmax 0%Q length1 + qmax 0%Q length2)%Q (esup i) (epv i) (ecom i))
+             else HOk h);
+    do hn1 <- get_node h n1;
+    do hn2 <- get_node h n2;
+    do h <- (if (negb (qeqb sup1 nilv) || negb (qeqb sup2 nilv)) &&
+                Nat.ltb 1 (length (hneigh hn1)) && Nat.ltb 1 (length (hneigh hn2))
+             then set_info h e (fun i => mkE (elen i) (qmax sup1 sup2) (epv i) (ecom i))
+             else HOk h);
+    del_node internal h
+  else HOk h.
+Local Close Scope string_scope.
+
+Lemma remove_tip_heap_eq tipname tip h :
+  remove_tip_heap tipname tip h =
+  do ht <- get_node h tip;
+  if negb (Nat.eqb (length (hneigh ht)) 1) then HErr err_rm_not_tip
+  else
+    do b0 <- nth_res (hbr ht) 0;
+    do bd0 <- get_edge h b0;
+    let internal := hleft bd0 in
+    do h <- del_neighbor internal tip h;
+    do h <- del_node tip h;
+    do hi <- get_node h internal;
+    do (internal, h, fin) <-
+       (if Nat.eqb (length (hneigh hi)) 1 then
+          do (internal, h) <- single_path_loop (hfuel h) internal h;
+          do hi <- get_node h internal;
+          if Nat.eqb (hroot h) internal && Nat.eqb (length (hneigh hi)) 1 then
+            do c <- nth_res (hneigh hi) 0;
+            let h := set_root h c in
+            do h <- del_neighbor c internal h;
+            do h <- del_node internal h;
+            HOk (internal, h, true)
+          else HOk (internal, h, false)
+        else HOk (internal, h, false));
+    if (fin : bool) then HOk h else suppress_tail tipname internal h.
+Proof. reflexivity. Qed.
+
+(** Case 2 on an inner node [i] between its parent [P] and its only remaining child [C] *)
+Lemma suppress_inner_eval h name i hi P C eP eC (pfirst : bool) hP hC jP jC iP iC :
+  alookup i (hnodes h) = Some hi ->
+  hneigh hi = (if pfirst then [P; C] else [C; P]) -> hbr hi = (if pfirst then [eP; eC] else [eC; eP]) ->
+  alookup eP (hedges h) = Some (mkHE P i iP) -> alookup eC (hedges h) = Some (mkHE i C iC) ->
+  alookup P (hnodes h) = Some hP -> alookup C (hnodes h) = Some hC -> P <> C -> P <> i -> C <> i ->
+  index_of i (hneigh hP) = Some jP -> jP < length (hbr hP) ->
+  index_of i (hneigh hC) = Some jC -> jC < length (hbr hC) ->
+  eP <> hnexte h -> eC <> hnexte h -> eP <> eC ->
+  exists h' einfo, suppress_tail name i h = HOk h' /\
+    splice_desc h h' P i C eP eC
+      (mkHN (hname hP) (hcom hP) (del_nth jP (hneigh hP) ++ [C]) (del_nth jP (hbr hP) ++ [hnexte h]))
+      (mkHN (hname hC) (hcom hC) (del_nth jC (hneigh hC) ++ [P]) (del_nth jC (hbr hC) ++ [hnexte h])) einfo.
+Proof.
+  intros Hi Hng Hbr EP EC HP HC NPC NPi NCi IP LP IC LC FP FC NE.
+  unfold suppress_tail, get_node at 1. rewrite Hi. cbn [hbind]. rewrite Hng, Hbr.
+  destruct pfirst; cbn [length Nat.eqb nth_res nth_error hbind]; unfold get_edge at 1 2; rewrite ?EP, ?EC; cbn [hbind hleft hright hinfo].
+  - (* parent slot first: n1 = P, n2 = C *)
+    rewrite !Nat.eqb_refl. cbn [andb].
+    destruct (del_neighbor_step h P i hP jP HP IP LP) as [h1 (S1 & Nd1 & (Ed1 & Rt1 & Nn1 & Ne1))]. rewrite S1. cbn [hbind].
+    assert (HC1 : alookup C (hnodes h1) = Some hC) by (rewrite Nd1; destruct (Nat.eqb_spec C P); [congruence|exact HC]).
+    destruct (del_neighbor_step h1 C i hC jC HC1 IC LC) as [h2 (S2 & Nd2 & (Ed2 & Rt2 & Nn2 & Ne2))]. rewrite S2. cbn [hbind].
+    set (YP := mkHN (hname hP) (hcom hP) (del_nth jP (hneigh hP)) (del_nth jP (hbr hP))) in *.
+    set (YC := mkHN (hname hC) (hcom hC) (del_nth jC (hneigh hC)) (del_nth jC (hbr hC))) in *.
+    assert (AP : alookup P (hnodes h2) = Some YP) by (rewrite Nd2; destruct (Nat.eqb_spec P C); [congruence|]; rewrite Nd1, Nat.eqb_refl; reflexivity).
+    assert (AC : alookup C (hnodes h2) = Some YC) by (rewrite Nd2, Nat.eqb_refl; reflexivity).
+    unfold get_node. rewrite AP, AC. cbn [hbind].
+    destruct (connect_nodes_step h2 P C YP YC NPC AP AC) as [h3 (S3 & Nd3 & Ed3 & Rt3 & Nn3 & Ne3)]. rewrite S3. cbn [hbind].
+    assert (Hne2 : hnexte h2 = hnexte h) by congruence. assert (Hed2 : hedges h2 = hedges h) by congruence. rewrite Hne2 in *.
+    match goal with |- context [if ?c then set_info ?hh ?e ?f else HOk ?hh] =>
+      destruct (set_info_if_step hh e P C e0 c f) as [h5 (S5 & Nd5 & Rt5 & Nn5 & Ne5 & Ed5)] end.
+    { rewrite Ed3, Nat.eqb_refl. reflexivity. }
+    rewrite S5. cbn [hbind]. rewrite Nd5, (Nd3 P), Nat.eqb_refl. cbn [hbind]. rewrite (Nd3 C).
+    destruct (Nat.eqb_spec C P); [congruence|]. rewrite Nat.eqb_refl. cbn [hbind].
+    match goal with |- context [if ?c then set_info ?hh ?e ?f else HOk ?hh] =>
+      destruct (set_info_if_step hh e P C _ c f (eq_trans (Ed5 e) ltac:(rewrite Nat.eqb_refl; reflexivity)))
+        as [h6 (S6 & Nd6 & Rt6 & Nn6 & Ne6 & Ed6)] end.
+    rewrite S6. cbn [hbind].
+    assert (Hi6 : alookup i (hnodes h6) = Some hi).
+    { rewrite Nd6, Nd5, Nd3. destruct (Nat.eqb_spec i P); [congruence|]. destruct (Nat.eqb_spec i C); [congruence|].
+      rewrite Nd2. destruct (Nat.eqb_spec i C); [congruence|]. rewrite Nd1. destruct (Nat.eqb_spec i P); [congruence|]. exact Hi. }
+    destruct (del_node_step2 h6 i hi eP eC Hi6 Hbr) as [h7 (S7 & Nd7 & Ed7 & Rt7 & Nn7 & Ne7)].
+    eexists h7, _. split; [exact S7|]. constructor.
+    + intros x. rewrite Nd7, Nd6, Nd5, Nd3, Nd2, Nd1. unfold app_slot, YP, YC. cbn [hname hcom hneigh hbr].
+      eqb_cases; subst; try congruence; reflexivity.
+    + intros y. rewrite Ed7, Ed6, Ed5, Ed3, Hed2. eqb_cases; subst; try congruence; reflexivity.
+    + congruence.
+    + congruence.
+    + congruence.
+  - (* child slot first: n1 = C, n2 = P *)
+    destruct (Nat.eqb_spec i C) as [E|_]; [congruence|]. destruct (Nat.eqb_spec i P) as [E|_]; [congruence|]. cbn [andb negb].
+    destruct (del_neighbor_step h C i hC jC HC IC LC) as [h1 (S1 & Nd1 & (Ed1 & Rt1 & Nn1 & Ne1))]. rewrite S1. cbn [hbind].
+    assert (HP1 : alookup P (hnodes h1) = Some hP) by (rewrite Nd1; destruct (Nat.eqb_spec P C); [congruence|exact HP]).
+    destruct (del_neighbor_step h1 P i hP jP HP1 IP LP) as [h2 (S2 & Nd2 & (Ed2 & Rt2 & Nn2 & Ne2))]. rewrite S2. cbn [hbind].
+    set (YP := mkHN (hname hP) (hcom hP) (del_nth jP (hneigh hP)) (del_nth jP (hbr hP))) in *.
+    set (YC := mkHN (hname hC) (hcom hC) (del_nth jC (hneigh hC)) (del_nth jC (hbr hC))) in *.
+    assert (AC : alookup C (hnodes h2) = Some YC) by (rewrite Nd2; destruct (Nat.eqb_spec C P); [congruence|]; rewrite Nd1, Nat.eqb_refl; reflexivity).
+    assert (AP : alookup P (hnodes h2) = Some YP) by (rewrite Nd2, Nat.eqb_refl; reflexivity).
+    unfold get_node. rewrite AP, AC. cbn [hbind].
+    destruct (connect_nodes_step h2 P C YP YC NPC AP AC) as [h3 (S3 & Nd3 & Ed3 & Rt3 & Nn3 & Ne3)]. rewrite S3. cbn [hbind].
+    assert (Hne2 : hnexte h2 = hnexte h) by congruence. assert (Hed2 : hedges h2 = hedges h) by congruence. rewrite Hne2 in *.
+    match goal with |- context [if ?c then set_info ?hh ?e ?f else HOk ?hh] =>
+      destruct (set_info_if_step hh e P C e0 c f) as [h5 (S5 & Nd5 & Rt5 & Nn5 & Ne5 & Ed5)] end.
+    { rewrite Ed3, Nat.eqb_refl. reflexivity. }
+    rewrite S5. cbn [hbind]. rewrite Nd5, (Nd3 C). destruct (Nat.eqb_spec C P); [congruence|]. rewrite Nat.eqb_refl. cbn [hbind].
+    rewrite (Nd3 P), Nat.eqb_refl. cbn [hbind].
+    match goal with |- context [if ?c then set_info ?hh ?e ?f else HOk ?hh] =>
+      destruct (set_info_if_step hh e P C _ c f (eq_trans (Ed5 e) ltac:(rewrite Nat.eqb_refl; reflexivity)))
+        as [h6 (S6 & Nd6 & Rt6 & Nn6 & Ne6 & Ed6)] end.
+    rewrite S6. cbn [hbind].
+    assert (Hi6 : alookup i (hnodes h6) = Some hi).
+    { rewrite Nd6, Nd5, Nd3. destruct (Nat.eqb_spec i P); [congruence|]. destruct (Nat.eqb_spec i C); [congruence|].
+      rewrite Nd2. destruct (Nat.eqb_spec i P); [congruence|]. rewrite Nd1. destruct (Nat.eqb_spec i C); [congruence|]. exact Hi. }
+    destruct (del_node_step2 h6 i hi eC eP Hi6 Hbr) as [h7 (S7 & Nd7 & Ed7 & Rt7 & Nn7 & Ne7)].
+    eexists h7, _. split; [exact S7|]. constructor.
+    + intros x. rewrite Nd7, Nd6, Nd5, Nd3, Nd2, Nd1. unfold app_slot, YP, YC. cbn [hname hcom hneigh hbr].
+      eqb_cases; subst; try congruence; reflexivity.
+    + intros y. rewrite Ed7, Ed6, Ed5, Ed3, Hed2. eqb_cases; subst; try congruence; reflexivity.
+    + congruence.
+    + congruence.
+    + congruence.
+Qed.
+
+Lemma two_slots_one_up (sl : list lslot) : length sl = 2 -> lnup sl = 1 ->
+  exists e ei ch, sl = [None; Some (e, ei, ch)] \/ sl = [Some (e, ei, ch); None].
+Proof.
+  intros L U. destruct sl as [|a [|b [|c sl]]]; cbn in L; try lia.
+  destruct a as [[[e1 i1] c1]|], b as [[[e2 i2] c2]|]; cbn in U; try discriminate.
+  - exists e1, i1, c1. right. reflexivity.
+  - exists e2, i2, c2. left. reflexivity.
+Qed.
+
+(** Case 2 on a non-root node keeps the representation *)
+Theorem suppress_inner_Rep h lt name P0 eP0 i nmi cmi sli : Rep h lt ->
+  In (Some (P0, eP0), LNode i nmi cmi sli) (lsubs None lt) -> length sli = 2 ->
+  exists h' lt', suppress_tail name i h = HOk h' /\ Rep h' lt'.
+Proof.
+  intros R HsubI Lsl. pose proof (Rep_Good h lt R) as G.
+  destruct (lwf_sub_lsubs lt None _ _ (or_introl (rep_wf _ _ R)) HsubI) as [E|W]; [discriminate|].
+  apply lwf_sub_iff in W. destruct W as [W1 W2].
+  destruct (two_slots_one_up sli Lsl W1) as (eC & eiC & Cn & Hsli).
+  destruct Cn as [C nmC cmC slC].
+  destruct (lsubs_parent _ _ _ _ _ HsubI) as [[E _]|(p & nmP & cmP & sl & eiP & Hsub & Hs)]; [discriminate|].
+  destruct (in_split _ _ Hs) as [l1 [l2 ->]].
+  set (pfirst := match sli with None :: _ => true | _ => false end).
+  assert (Esli : sli = if pfirst then [None; Some (eC, eiC, LNode C nmC cmC slC)] else [Some (eC, eiC, LNode C nmC cmC slC); None]).
+  { unfold pfirst. destruct Hsli as [->| ->]; reflexivity. }
+  clearbody pfirst. subst sli.
+  (* the records *)
+  pose proof (shape_lsubs _ _ _ _ _ _ (rep_shape _ _ R) HsubI) as ShI. apply shape_unfold in ShI. destruct ShI as [hi (I1 & I2 & I3 & I4 & I5)].
+  pose proof (shape_lsubs _ _ _ _ _ _ (rep_shape _ _ R) Hsub) as ShP. apply shape_unfold in ShP. destruct ShP as [hP (A1 & A2 & A3 & A4 & A5)].
+  apply Forall2_app_inv_r in A5. destruct A5 as (c1 & c2' & F1 & F2 & Ec).
+  apply Forall2_cons_inv_r in F2. destruct F2 as (ce & c2 & Ec2 & Ok0 & F2'). rewrite Ec2 in Ec. clear Ec2 c2'.
+  destruct ce as [x0 e0]. cbn [slot_ok fst snd lid] in Ok0. destruct Ok0 as (_ & Ee & Er & [edP (E1 & E2 & E3 & E4)] & _). subst e0 x0.
+  destruct edP as [a b c]. cbn [hleft hright hinfo] in E2, E3, E4. subst a b c.
+  pose proof (Forall2_length' _ _ _ F1) as Lc.
+  assert (HsubC : In (Some (i, eC), LNode C nmC cmC slC) (lsubs None lt)).
+  { eapply lsubs_trans; [exact HsubI|]. eapply lsubs_child. destruct pfirst; [right; left|left]; reflexivity. }
+  pose proof (shape_lsubs _ _ _ _ _ _ (rep_shape _ _ R) HsubC) as ShC. apply shape_unfold in ShC. destruct ShC as [hC (B1 & B2 & B3 & B4 & B5)].
+  destruct (lwf_sub_lsubs lt None _ _ (or_introl (rep_wf _ _ R)) HsubC) as [E|WC]; [discriminate|].
+  apply lwf_sub_iff in WC. destruct WC as [WC1 WC2].
+  (* i's own record *)
+  assert (Hrec : hneigh hi = (if pfirst then [P0; C] else [C; P0]) /\ hbr hi = (if pfirst then [eP0; eC] else [eC; eP0]) /\
+                 alookup eC (hedges h) = Some (mkHE i C eiC)).
+  { unfold slots_of in I5. destruct pfirst; apply Forall2_cons_inv_r in I5; destruct I5 as (ce1 & r1 & Er1 & O1 & I5);
+      apply Forall2_cons_inv_r in I5; destruct I5 as (ce2 & r2 & Er2 & O2 & I5); inversion I5; subst r2 r1;
+      destruct (hneigh hi) as [|x1 [|x2 [|x3 ng]]], (hbr hi) as [|y1 [|y2 [|y3 bs]]]; cbn in I4, Er1; try discriminate; try lia;
+      injection Er1 as <- <-; cbn [slot_ok fst snd lid] in O1, O2.
+    - injection O1 as <- <-. destruct O2 as (_ & <- & <- & [ed (X1 & X2 & X3 & X4)] & _).
+      destruct ed as [a b c]. cbn in X2, X3, X4. subst. repeat split. exact X1.
+    - injection O2 as <- <-. destruct O1 as (_ & <- & <- & [ed (X1 & X2 & X3 & X4)] & _).
+      destruct ed as [a b c]. cbn in X2, X3, X4. subst. repeat split. exact X1. }
+  destruct Hrec as (Hng & Hbr & EC).
+  (* the parent of i is P0 = P, through eP0 = eP: read it off the parent's slot *)
+  destruct (Rep_parent h lt R P0 eP0 _ HsubI) as (hm & edp & Q1 & Q2 & Q3 & Q4 & Q5 & Q6). cbn [lid] in Q5.
+  set (subP := LNode P0 nmP cmP (l1 ++ Some (eP0, eiP, LNode i nmi cmi (if pfirst then [None; Some (eC, eiC, LNode C nmC cmC slC)] else [Some (eC, eiC, LNode C nmC cmC slC); None])) :: l2)) in *.
+  assert (Nd : NoDup (lids subP)) by (eapply lsubs_NoDup; [exact (rep_nd _ _ R)|exact Hsub]).
+  assert (NdI : NoDup (lids (LNode i nmi cmi (if pfirst then [None; Some (eC, eiC, LNode C nmC cmC slC)] else [Some (eC, eiC, LNode C nmC cmC slC); None])))).
+  { eapply lsubs_NoDup; [exact (rep_nd _ _ R)|exact HsubI]. }
+  assert (InC_I : In C (lids (LNode i nmi cmi (if pfirst then [None; Some (eC, eiC, LNode C nmC cmC slC)] else [Some (eC, eiC, LNode C nmC cmC slC); None])))).
+  { rewrite lids_eq. right. destruct pfirst; cbn; left; reflexivity. }
+  assert (NPi : P0 <> i) by (intros E0; apply Q6; rewrite E0; left; reflexivity).
+  assert (NPC : P0 <> C) by (intros E0; apply Q6; rewrite E0; exact InC_I).
+  assert (NCi : C <> i).
+  { intros E0. rewrite lids_eq in NdI. apply NoDup_cons_iff in NdI. apply (proj1 NdI). rewrite <- E0. destruct pfirst; cbn; left; reflexivity. }
+  assert (HnP : nth_error (hneigh hP) (length l1) = Some i).
+  { rewrite <- (slots_of_fst hP A4). unfold slots_of. rewrite Ec, nth_error_map, <- Lc, nth_error_app_mid. reflexivity. }
+  assert (IP : index_of i (hneigh hP) = Some (length l1)) by (apply index_of_NoDup; [exact (g_nodup _ G P0 hP A1)|exact HnP]).
+  assert (LP : length l1 < length (hbr hP)) by (rewrite <- A4; apply nth_error_Some; congruence).
+  destruct (drop_up_Forall2 (slot_ok true h (Some (i, eC)) C) i slC (hneigh hC) (hbr hC) B4 B5) as [jC (IC & LC & _)].
+  { intros j y Hj. eapply neigh_iff_none; [exact B5|exact B4| |exact Hj].
+    intros z Hz ->. rewrite lids_eq in NdI. apply NoDup_cons_iff in NdI. apply (proj1 NdI).
+    destruct pfirst; cbn [flat_map app]; rewrite ?app_nil_r, lids_eq; right; exact Hz. }
+  { apply lnup_pos_in. lia. }
+  assert (FrE : forall y, alookup y (hedges h) <> None -> y <> hnexte h) by (intros y Hy; apply (g_fresh_e _ G) in Hy; lia).
+  assert (NE : eP0 <> eC).
+  { intros E0. rewrite E0, EC in E1. injection E1 as X1 X2. congruence. }
+  destruct (suppress_inner_eval h name i hi P0 C eP0 eC pfirst hP hC (length l1) jC eiP eiC I1 Hng Hbr E1 EC A1 B1 NPC NPi NCi IP LP IC LC)
+    as (h' & einfo & Ev & D); [apply FrE; congruence|apply FrE; congruence|exact NE|].
+  exists h'. eexists. split; [exact Ev|].
+  exact (SP_Rep h h' lt R p P0 nmP cmP l1 l2 eP0 eiP i nmi cmi pfirst eC eiC C nmC cmC slC Hsub hP hC jC einfo A1 B1 IC D).
+Qed.
+
+(** * Case 2 on the root of a tree with two root branches (the root is suppressed) *)
+Lemma suppress_root_eval h name hr n1 n2 e1 e2 hn1 hn2 i1 i2 ei1 ei2 :
+  alookup (hroot h) (hnodes h) = Some hr -> hneigh hr = [n1; n2] -> hbr hr = [e1; e2] ->
+  alookup n1 (hnodes h) = Some hn1 -> alookup n2 (hnodes h) = Some hn2 ->
+  n1 <> n2 -> n1 <> hroot h -> n2 <> hroot h ->
+  index_of (hroot h) (hneigh hn1) = Some i1 -> i1 < length (hbr hn1) ->
+  index_of (hroot h) (hneigh hn2) = Some i2 -> i2 < length (hbr hn2) ->
+  alookup e1 (hedges h) = Some (mkHE (hroot h) n1 ei1) -> alookup e2 (hedges h) = Some (mkHE (hroot h) n2 ei2) ->
+  e1 <> hnexte h -> e2 <> hnexte h ->
+  let e3 := hnexte h in
+  let X1 m := mkHN (hname hn1) (hcom hn1) (del_nth i1 (hneigh hn1) ++ [m]) (del_nth i1 (hbr hn1) ++ [e3]) in
+  let X2 m := mkHN (hname hn2) (hcom hn2) (del_nth i2 (hneigh hn2) ++ [m]) (del_nth i2 (hbr hn2) ++ [e3]) in
+  if Nat.ltb 1 (length (del_nth i1 (hneigh hn1))) then
+    exists h' info, suppress_tail name (hroot h) h = HOk h' /\ unroot_desc h h' (hroot h) n1 n2 e1 e2 e3 (X1 n2) (X2 n1) info
+  else if Nat.ltb 1 (length (del_nth i2 (hneigh hn2))) then
+    exists h' info, suppress_tail name (hroot h) h = HOk h' /\ unroot_desc h h' (hroot h) n2 n1 e2 e1 e3 (X2 n1) (X1 n2) info
+  else exists m, suppress_tail name (hroot h) h = HErr m.
+Proof.
+  intros Hr Hng Hbr Hn1 Hn2 N12 N1r N2r I1 L1 I2 L2 E1 E2 F1 F2. cbv zeta.
+  destruct (Nat.ltb 1 (length (del_nth i1 (hneigh hn1)))) eqn:D1; [|destruct (Nat.ltb 1 (length (del_nth i2 (hneigh hn2)))) eqn:D2].
+  all: unfold suppress_tail, get_node at 1; rewrite Hr; cbn [hbind]; rewrite Hng, Hbr; cbn [length Nat.eqb nth_res nth_error hbind]; unfold get_edge at 1 2; rewrite E1, E2; cbn [hbind hleft hright hinfo]; destruct (Nat.eqb_spec (hroot h) n1) as [E|_]; [congruence|]; rewrite Nat.eqb_refl; cbn [andb negb]; destruct (del_neighbor_step h n1 (hroot h) hn1 i1 Hn1 I1 L1) as [h1 (S1 & Nd1 & (Ed1 & Rt1 & Nn1 & Ne1))]; rewrite S1; cbn [hbind]; assert (Hn2' : alookup n2 (hnodes h1) = Some hn2) by (rewrite Nd1; destruct (Nat.eqb_spec n2 n1); [congruence|exact Hn2]); destruct (del_neighbor_step h1 n2 (hroot h) hn2 i2 Hn2' I2 L2) as [h2 (S2 & Nd2 & (Ed2 & Rt2 & Nn2 & Ne2))]; rewrite S2; cbn [hbind]; set (Y1 := mkHN (hname hn1) (hcom hn1) (del_nth i1 (hneigh hn1)) (del_nth i1 (hbr hn1))) in *; set (Y2 := mkHN (hname hn2) (hcom hn2) (del_nth i2 (hneigh hn2)) (del_nth i2 (hbr hn2))) in *; assert (A1 : alookup n1 (hnodes h2) = Some Y1) by (rewrite Nd2; destruct (Nat.eqb_spec n1 n2); [congruence|]; rewrite Nd1, Nat.eqb_refl; reflexivity); assert (A2 : alookup n2 (hnodes h2) = Some Y2) by (rewrite Nd2, Nat.eqb_refl; reflexivity); assert (Hne2 : hnexte h2 = hnexte h) by congruence; assert (Hed2 : hedges h2 = hedges h) by congruence; assert (Hrt2 : hroot h2 = hroot h) by congruence; unfold get_node; rewrite A1, A2; cbn [hbind]; rewrite Hrt2, Nat.eqb_refl; cbn [negb Y1 Y2 hneigh].
+  - rewrite D1. destruct (connect_nodes_step h2 n1 n2 Y1 Y2 N12 A1 A2) as [h3 (S3 & Nd3 & Ed3 & Rt3 & Nn3 & Ne3)]. rewrite S3. cbn [hbind]. rewrite Hne2 in *.
+    match goal with |- context [if ?c then set_info ?hh ?e ?f else HOk ?hh] =>
+      destruct (set_info_if_step hh e n1 n2 e0 c f) as [h5 (S5 & Nd5 & Rt5 & Nn5 & Ne5 & Ed5)] end.
+    { cbn [set_root hedges]. rewrite Ed3, Nat.eqb_refl. reflexivity. }
+    rewrite S5. cbn [hbind]. rewrite Nd5. cbn [set_root hnodes]. rewrite (Nd3 n1), Nat.eqb_refl. cbn [hbind].
+    rewrite (Nd3 n2). destruct (Nat.eqb_spec n2 n1); [congruence|]. rewrite Nat.eqb_refl. cbn [hbind].
+    match goal with |- context [if ?c then set_info ?hh ?e ?f else HOk ?hh] =>
+      destruct (set_info_if_step hh e n1 n2 _ c f (eq_trans (Ed5 e) ltac:(rewrite Nat.eqb_refl; reflexivity)))
+        as [h6 (S6 & Nd6 & Rt6 & Nn6 & Ne6 & Ed6)] end.
+    rewrite S6. cbn [hbind].
+    assert (Hr6 : alookup (hroot h) (hnodes h6) = Some hr).
+    { rewrite Nd6, Nd5. cbn [set_root hnodes]. rewrite Nd3.
+      destruct (Nat.eqb_spec (hroot h) n1); [congruence|]. destruct (Nat.eqb_spec (hroot h) n2); [congruence|].
+      rewrite Nd2. destruct (Nat.eqb_spec (hroot h) n2); [congruence|]. rewrite Nd1. destruct (Nat.eqb_spec (hroot h) n1); [congruence|]. exact Hr. }
+    destruct (del_node_step2 h6 (hroot h) hr e1 e2 Hr6 Hbr) as [h7 (S7 & Nd7 & Ed7 & Rt7 & Nn7 & Ne7)].
+    eexists h7, _. split; [exact S7|]. constructor.
+    + intros x. rewrite Nd7, Nd6, Nd5. cbn [set_root hnodes]. rewrite Nd3, Nd2, Nd1. unfold app_slot, Y1, Y2. cbn [hname hcom hneigh hbr].
+      eqb_cases; subst; try congruence; reflexivity.
+    + intros y. rewrite Ed7, Ed6, Ed5. cbn [set_root hedges]. rewrite Ed3, Hed2. eqb_cases; subst; try congruence; reflexivity.
+    + rewrite Rt7, Rt6, Rt5. reflexivity.
+    + rewrite Nn7, Nn6, Nn5. cbn. congruence.
+    + rewrite Ne7, Ne6, Ne5. cbn. congruence.
+  - rewrite D1, D2. destruct (connect_nodes_step h2 n2 n1 Y2 Y1 (not_eq_sym N12) A2 A1) as [h3 (S3 & Nd3 & Ed3 & Rt3 & Nn3 & Ne3)]. rewrite S3. cbn [hbind]. rewrite Hne2 in *.
+      match goal with |- context [if ?c then set_info ?hh ?e ?f else HOk ?hh] =>
+        destruct (set_info_if_step hh e n2 n1 e0 c f) as [h5 (S5 & Nd5 & Rt5 & Nn5 & Ne5 & Ed5)] end.
+      { cbn [set_root hedges]. rewrite Ed3, Nat.eqb_refl. reflexivity. }
+      rewrite S5. cbn [hbind]. rewrite Nd5. cbn [set_root hnodes]. rewrite (Nd3 n1). destruct (Nat.eqb_spec n1 n2); [congruence|].
+      rewrite Nat.eqb_refl. cbn [hbind]. rewrite (Nd3 n2), Nat.eqb_refl. cbn [hbind].
+      match goal with |- context [if ?c then set_info ?hh ?e ?f else HOk ?hh] =>
+        destruct (set_info_if_step hh e n2 n1 _ c f (eq_trans (Ed5 e) ltac:(rewrite Nat.eqb_refl; reflexivity)))
+          as [h6 (S6 & Nd6 & Rt6 & Nn6 & Ne6 & Ed6)] end.
+      rewrite S6. cbn [hbind].
+      assert (Hr6 : alookup (hroot h) (hnodes h6) = Some hr).
+      { rewrite Nd6, Nd5. cbn [set_root hnodes]. rewrite Nd3.
+        destruct (Nat.eqb_spec (hroot h) n2); [congruence|]. destruct (Nat.eqb_spec (hroot h) n1); [congruence|].
+        rewrite Nd2. destruct (Nat.eqb_spec (hroot h) n2); [congruence|]. rewrite Nd1. destruct (Nat.eqb_spec (hroot h) n1); [congruence|]. exact Hr. }
+      destruct (del_node_step2 h6 (hroot h) hr e1 e2 Hr6 Hbr) as [h7 (S7 & Nd7 & Ed7 & Rt7 & Nn7 & Ne7)].
+      eexists h7, _. split; [exact S7|]. constructor.
+      * intros x. rewrite Nd7, Nd6, Nd5. cbn [set_root hnodes]. rewrite Nd3, Nd2, Nd1. unfold app_slot, Y1, Y2. cbn [hname hcom hneigh hbr].
+        eqb_cases; subst; try congruence; reflexivity.
+      * intros y. rewrite Ed7, Ed6, Ed5. cbn [set_root hedges]. rewrite Ed3, Hed2. eqb_cases; subst; try congruence; reflexivity.
+      * rewrite Rt7, Rt6, Rt5. reflexivity.
+      * rewrite Nn7, Nn6, Nn5. cbn. congruence.
+      * rewrite Ne7, Ne6, Ne5. cbn. congruence.
+  - rewrite D1, D2. destruct (Nat.eqb (length (del_nth i2 (hneigh hn2))) 1 || Nat.eqb (length (del_nth i1 (hneigh hn1))) 1); cbn [hbind]; eexists; reflexivity.
+Qed.
+
+(** Case 2 on the root keeps the representation (or reports that no new root can be chosen) *)
+Theorem suppress_root_Rep h lt name : Rep h lt -> length (lslots lt) = 2 ->
+  (exists h' lt', suppress_tail name (hroot h) h = HOk h' /\ Rep h' lt') \/
+  (exists m, suppress_tail name (hroot h) h = HErr m).
+Proof.
+  intros R L2. destruct lt as [r0 nm cm sl]. pose proof (rep_root _ _ R) as Hroot. cbn [lid] in Hroot. subst r0. cbn [lslots] in L2.
+  pose proof (rep_shape _ _ R) as Sh. pose proof Sh as Sh0. apply shape_unfold in Sh. destruct Sh as [hr (A1 & A2 & A3 & A4 & A5)].
+  destruct (shape_length _ _ _ _ _ _ _ _ Sh0 A1) as [Lr _].
+  pose proof (rep_wf _ _ R) as W. apply lwf_iff in W. destruct W as [W0 Wk].
+  destruct sl as [|s1 [|s2 [|s3 sl]]]; cbn in L2; try lia.
+  destruct s1 as [[[e1 ei1] [n1 nm1 cm1 sl1]]|]; [|cbn in W0; discriminate].
+  destruct s2 as [[[e2 ei2] [n2 nm2 cm2 sl2]]|]; [|cbn in W0; discriminate].
+  (* the root's two slots *)
+  unfold slots_of in A5. destruct (hneigh hr) as [|x1 [|x2 [|x3 ng]]] eqn:Eng; cbn in Lr; try lia.
+  destruct (hbr hr) as [|b1 [|b2 [|b3 bs]]] eqn:Ebr; cbn in A4; try lia. cbn [combine] in A5.
+  inversion A5 as [|? ? ? ? O1 A5']; subst. inversion A5' as [|? ? ? ? O2 _]; subst. clear A5 A5'.
+  cbn [slot_ok fst snd lid] in O1, O2.
+  destruct O1 as (_ & <- & <- & [ed1 (E1 & E1i & E1l & E1r)] & S1).
+  destruct O2 as (_ & <- & <- & [ed2 (E2 & E2i & E2l & E2r)] & S2).
+  destruct (child_view _ _ _ _ _ _ _ S1 (Wk _ _ _ (or_introl eq_refl))) as [hn1 (B1 & B2 & B3 & B4 & B5 & B6 & B7 & B8)].
+  destruct (child_view _ _ _ _ _ _ _ S2 (Wk _ _ _ (or_intror (or_introl eq_refl)))) as [hn2 (C1 & C2 & C3 & C4 & C5 & C6 & C7 & C8)].
+  (* distinctness *)
+  pose proof (rep_nd _ _ R) as Nd. rewrite lids_eq in Nd. cbn [flat_map] in Nd. rewrite !lids_eq in Nd. fold (sids sl1) (sids sl2) in Nd. rewrite app_nil_r in Nd.
+  pose proof (rep_ned _ _ R) as Ned. rewrite leids_eq in Ned. cbn [flat_map] in Ned. rewrite !leids_eq in Ned. fold (seids sl1) (seids sl2) in Ned. rewrite app_nil_r in Ned.
+  assert (P1 : Permutation ((hroot h) :: (n1 :: sids sl1) ++ n2 :: sids sl2) ((hroot h) :: n1 :: n2 :: sids sl1 ++ sids sl2)).
+  { apply perm_skip. cbn [app]. apply perm_skip. symmetry. apply Permutation_middle. }
+  assert (P2 : Permutation ((hroot h) :: (n1 :: sids sl1) ++ n2 :: sids sl2) ((hroot h) :: n2 :: n1 :: sids sl2 ++ sids sl1)).
+  { apply perm_skip. rewrite Permutation_app_comm. cbn [app]. apply perm_skip. symmetry. apply Permutation_middle. }
+  assert (Q1 : Permutation ((e1 :: seids sl1) ++ e2 :: seids sl2) (e1 :: e2 :: seids sl1 ++ seids sl2)).
+  { cbn [app]. apply perm_skip. symmetry. apply Permutation_middle. }
+  assert (Q2 : Permutation ((e1 :: seids sl1) ++ e2 :: seids sl2) (e2 :: e1 :: seids sl2 ++ seids sl1)).
+  { rewrite Permutation_app_comm. cbn [app]. apply perm_skip. symmetry. apply Permutation_middle. }
+  pose proof (Permutation_NoDup P1 Nd) as Nd1. pose proof (Permutation_NoDup P2 Nd) as Nd2.
+  pose proof (Permutation_NoDup Q1 Ned) as Ned1. pose proof (Permutation_NoDup Q2 Ned) as Ned2.
+  assert (Dn : forall x, alookup x (hnodes h) <> None <-> In x ((hroot h) :: (n1 :: sids sl1) ++ n2 :: sids sl2)).
+  { intros x. rewrite <- (rep_nodes _ _ R x). rewrite lids_eq. cbn [flat_map]. rewrite !lids_eq. fold (sids sl1) (sids sl2). rewrite app_nil_r. reflexivity. }
+  assert (De : forall e, alookup e (hedges h) <> None <-> In e ((e1 :: seids sl1) ++ e2 :: seids sl2)).
+  { intros x. rewrite <- (rep_edges _ _ R x). rewrite leids_eq. cbn [flat_map]. rewrite !leids_eq. fold (seids sl1) (seids sl2). rewrite app_nil_r. reflexivity. }
+  assert (Fn : forall x, alookup x (hnodes h) <> None -> x < hnextn h).
+  { intros x Hx. apply (rep_fn _ _ R). apply (rep_nodes _ _ R). exact Hx. }
+  assert (Fe : forall e, alookup e (hedges h) <> None -> e < hnexte h).
+  { intros x Hx. apply (rep_fe _ _ R). apply (rep_edges _ _ R). exact Hx. }
+  assert (Dist : n1 <> n2 /\ n1 <> (hroot h) /\ n2 <> (hroot h)).
+  { apply NoDup_cons_iff in Nd1. destruct Nd1 as [X1 X2]. apply NoDup_cons_iff in X2. destruct X2 as [X3 _].
+    repeat split; intros E.
+    - apply X3. left. symmetry. exact E.
+    - apply X1. left. exact E.
+    - apply X1. right. left. exact E. }
+  destruct Dist as (N12 & N1r & N2r).
+  (* index of the root in its two neighbours *)
+  assert (Hs1 : forall z, In z (sids sl1) -> z <> (hroot h)).
+  { intros z Hz ->. apply NoDup_cons_iff in Nd1. apply (proj1 Nd1). right. right. apply in_or_app. left. exact Hz. }
+  assert (Hs2 : forall z, In z (sids sl2) -> z <> (hroot h)).
+  { intros z Hz ->. apply NoDup_cons_iff in Nd1. apply (proj1 Nd1). right. right. apply in_or_app. right. exact Hz. }
+  destruct (drop_up_Forall2 (slot_ok true h (Some ((hroot h), e1)) n1) (hroot h) sl1 (hneigh hn1) (hbr hn1) B4 B6) as [i1 (I1 & I1' & _)].
+  { intros j y Hj. eapply neigh_iff_none; [exact B6|exact B4|exact Hs1|exact Hj]. }
+  { apply lnup_pos_in. lia. }
+  destruct (drop_up_Forall2 (slot_ok true h (Some ((hroot h), e2)) n2) (hroot h) sl2 (hneigh hn2) (hbr hn2) C4 C6) as [i2 (I2 & I2' & _)].
+  { intros j y Hj. eapply neigh_iff_none; [exact C6|exact C4|exact Hs2|exact Hj]. }
+  { apply lnup_pos_in. lia. }
+  assert (F1 : e1 <> hnexte h). { intros E. assert (e1 < hnexte h); [apply Fe; congruence|lia]. }
+  assert (F2 : e2 <> hnexte h). { intros E. assert (e2 < hnexte h); [apply Fe; congruence|lia]. }
+  pose proof (suppress_root_eval h name hr n1 n2 e1 e2 hn1 hn2 i1 i2 ei1 ei2 A1 Eng Ebr B1 C1 N12 N1r N2r I1 I1' I2 I2') as Ev.
+  assert (Hed1 : alookup e1 (hedges h) = Some (mkHE (hroot h) n1 ei1)).
+  { destruct ed1 as [a b c]. cbn in E1i, E1l, E1r. subst. exact E1. }
+  assert (Hed2 : alookup e2 (hedges h) = Some (mkHE (hroot h) n2 ei2)).
+  { destruct ed2 as [a b c]. cbn in E2i, E2l, E2r. subst. exact E2. }
+  specialize (Ev Hed1 Hed2 F1 F2). cbv zeta in Ev.
+  destruct (Nat.ltb 1 (length (del_nth i1 (hneigh hn1)))).
+  - destruct Ev as (h' & info & Ev & D). left. exists h'. eexists. split; [exact Ev|].
+    eapply (unroot_generic h h' (hroot h) n1 n2 e1 e2 (hnexte h) nm1 nm2 cm1 cm2 sl1 sl2 hn1 hn2 i1 i2); try eassumption; try reflexivity.
+    + intros x. rewrite Dn. split; intros Hx; [eapply Permutation_in; [exact P1|exact Hx]|eapply Permutation_in; [symmetry; exact P1|exact Hx]].
+    + intros x. rewrite De. split; intros Hx; [eapply Permutation_in; [exact Q1|exact Hx]|eapply Permutation_in; [symmetry; exact Q1|exact Hx]].
+  - destruct (Nat.ltb 1 (length (del_nth i2 (hneigh hn2)))).
+    + destruct Ev as (h' & info & Ev & D). left. exists h'. eexists. split; [exact Ev|].
+      eapply (unroot_generic h h' (hroot h) n2 n1 e2 e1 (hnexte h) nm2 nm1 cm2 cm1 sl2 sl1 hn2 hn1 i2 i1); try eassumption; try reflexivity.
+      * intros x. rewrite Dn. split; intros Hx; [eapply Permutation_in; [exact P2|exact Hx]|eapply Permutation_in; [symmetry; exact P2|exact Hx]].
+      * intros x. rewrite De. split; intros Hx; [eapply Permutation_in; [exact Q2|exact Hx]|eapply Permutation_in; [symmetry; exact Q2|exact Hx]].
+    + right. exact Ev.
+Qed.
+
+(** * Case 1b: the root is left with one neighbour: that neighbour becomes the root *)
+Theorem drop_root_Rep h r nm cm ec eic c nmc cmc slc :
+  Rep h (LNode r nm cm [Some (ec, eic, LNode c nmc cmc slc)]) ->
+  exists h', (do h1 <- del_neighbor c r (set_root h c); del_node r h1) = HOk h' /\
+             Rep h' (LNode c nmc cmc (ldrop_up slc)).
+Proof.
+  intros R. pose proof (rep_root _ _ R) as Hroot. cbn [lid] in Hroot.
+  pose proof (rep_shape _ _ R) as Sh. apply shape_unfold in Sh. destruct Sh as [hr (A1 & A2 & A3 & A4 & A5)].
+  apply Forall2_cons_inv_r in A5. destruct A5 as ([c0 e0] & tl & Esl & Ok0 & A5). inversion A5. subst tl. clear A5.
+  cbn [slot_ok fst snd lid] in Ok0. destruct Ok0 as (_ & <- & <- & [ed (E1 & E2 & E3 & E4)] & Shc).
+  assert (Hrec : hneigh hr = [c] /\ hbr hr = [ec]).
+  { unfold slots_of in Esl. destruct (hneigh hr) as [|a [|a' ng]], (hbr hr) as [|b [|b' bs]]; cbn in A4, Esl; try discriminate; try lia.
+    injection Esl as -> ->. split; reflexivity. }
+  destruct Hrec as [Hng Hbr].
+  apply shape_unfold in Shc. destruct Shc as [hc (B1 & B2 & B3 & B4 & B5)].
+  pose proof (rep_wf _ _ R) as W. apply lwf_iff in W. destruct W as [_ Wk].
+  pose proof (Wk _ _ _ (or_introl eq_refl)) as Wc. apply lwf_sub_iff in Wc. destruct Wc as [Wc1 Wc2].
+  pose proof (rep_nd _ _ R) as Nd. rewrite lids_eq in Nd. cbn [flat_map] in Nd. rewrite lids_eq, app_nil_r in Nd. fold (sids slc) in Nd.
+  pose proof (rep_ned _ _ R) as Ned. rewrite leids_eq in Ned. cbn [flat_map] in Ned. rewrite leids_eq, app_nil_r in Ned. fold (seids slc) in Ned.
+  apply NoDup_cons_iff in Nd. destruct Nd as [N1 N2]. apply NoDup_cons_iff in Ned. destruct Ned as [M1 M2].
+  assert (Ncr : c <> r) by (intros E0; apply N1; left; exact E0).
+  destruct (drop_up_Forall2 (slot_ok true h (Some (r, ec)) c) r slc (hneigh hc) (hbr hc) B4 B5) as [ic (I1 & I2 & I3)].
+  { intros j y Hj. eapply neigh_iff_none; [exact B5|exact B4| |exact Hj]. intros z Hz ->. apply N1. right. exact Hz. }
+  { apply lnup_pos_in. lia. }
+  assert (Hc' : alookup c (hnodes (set_root h c)) = Some hc) by exact B1.
+  destruct (del_neighbor_step (set_root h c) c r hc ic Hc' I1 I2) as [h1 (S1 & Nd1 & (Ed1 & Rt1 & Nn1 & Ne1))].
+  rewrite S1. cbn [hbind].
+  assert (Hr1 : alookup r (hnodes h1) = Some hr).
+  { rewrite Nd1. destruct (Nat.eqb_spec r c); [congruence|]. exact A1. }
+  destruct (del_node_step1 h1 r hr ec Hr1 Hbr) as [h' (S2 & Nd2 & Ed2 & Rt2 & Nn2 & Ne2)].
+  exists h'. split; [exact S2|].
+  set (Yc := mkHN (hname hc) (hcom hc) (del_nth ic (hneigh hc)) (del_nth ic (hbr hc))) in *.
+  assert (Lc' : alookup c (hnodes h') = Some Yc).
+  { rewrite Nd2. destruct (Nat.eqb_spec c r); [congruence|]. rewrite Nd1, Nat.eqb_refl. reflexivity. }
+  assert (Nsame : forall y, y <> c -> y <> r -> alookup y (hnodes h') = alookup y (hnodes h)).
+  { intros y Y1 Y2. rewrite Nd2. destruct (Nat.eqb_spec y r); [contradiction|]. rewrite Nd1. destruct (Nat.eqb_spec y c); [contradiction|reflexivity]. }
+  assert (Esame : forall y, y <> ec -> alookup y (hedges h') = alookup y (hedges h)).
+  { intros y Y. rewrite Ed2. destruct (Nat.eqb_spec y ec); [contradiction|]. rewrite Ed1. reflexivity. }
+  assert (Zc : lnup (ldrop_up slc) = 0) by (rewrite lnup_drop_up, Wc1; reflexivity).
+  assert (InnN : forall y, In y (sids slc) -> y <> c /\ y <> r).
+  { intros y Hy. apply NoDup_cons_iff in N2. split; intros ->; [exact (proj1 N2 Hy)|apply N1; right; exact Hy]. }
+  constructor.
+  - cbn [lid]. rewrite Rt2, Rt1. reflexivity.
+  - apply shape_unfold. exists Yc. split; [exact Lc'|]. unfold Yc. cbn [hname hcom hneigh hbr].
+    split; [exact B2|]. split; [exact B3|].
+    split; [pose proof (del_nth_length ic (hneigh hc) ltac:(lia)); pose proof (del_nth_length ic (hbr hc) I2); lia|].
+    eapply Forall2_impl_r; [exact I3|]. intros ce s Hs Hok. destruct s as [[[e2 ei2] X]|]; [|exfalso; exact (lnup_zero_notin _ Zc Hs)].
+    apply in_ldrop_up in Hs. cbn [slot_ok] in *. destruct Hok as (_ & X2 & X3 & X4 & X5). split; [discriminate|].
+    split; [exact X2|]. split; [exact X3|]. split.
+    + eapply edge_ok_eq; [|exact X4]. rewrite <- X2. apply Esame. intros ->. apply M1. eapply in_seids_here. exact Hs.
+    + eapply shape_frame; [| |exact X5].
+      * intros y Hy. destruct (InnN y) as [Y1 Y2]; [eapply in_sids; eassumption|]. apply Nsame; assumption.
+      * intros y Hy. apply Esame. intros ->. apply M1. eapply in_seids; eassumption.
+  - apply lwf_iff. split; [exact Zc|]. intros e' ei' ch' Hin. apply in_ldrop_up in Hin. exact (Wc2 _ _ _ Hin).
+  - rewrite lids_eq. fold (sids (ldrop_up slc)). rewrite sids_drop_up. exact N2.
+  - rewrite leids_eq. fold (seids (ldrop_up slc)). rewrite seids_drop_up. exact M2.
+  - intros y. rewrite lids_eq. fold (sids (ldrop_up slc)). rewrite sids_drop_up.
+    destruct (Nat.eq_dec y r) as [->|Nr].
+    { rewrite Nd2, Nat.eqb_refl. split; [|congruence]. intros [E0|Hy]; [congruence|]. exfalso. apply N1. right. exact Hy. }
+    destruct (Nat.eq_dec y c) as [->|Nc]; [rewrite Lc'; split; [discriminate|intros _; left; reflexivity]|].
+    rewrite (Nsame y Nc Nr), <- (rep_nodes _ _ R y). rewrite lids_eq. cbn [flat_map]. rewrite lids_eq, app_nil_r. fold (sids slc).
+    cbn [In]. split; [intros [E0|Hy]; [congruence|tauto]|intros [E0|[E0|Hy]]; [congruence|congruence|tauto]].
+  - intros y. rewrite leids_eq. fold (seids (ldrop_up slc)). rewrite seids_drop_up.
+    destruct (Nat.eq_dec y ec) as [->|Nec].
+    { rewrite Ed2, Nat.eqb_refl. split; [|congruence]. intros Hy. contradiction. }
+    rewrite (Esame y Nec), <- (rep_edges _ _ R y). rewrite leids_eq. cbn [flat_map]. rewrite leids_eq, app_nil_r. fold (seids slc).
+    cbn [In]. split; [tauto|intros [E0|Hy]; [congruence|exact Hy]].
+  - intros y Hy. replace (hnextn h') with (hnextn h) by (rewrite Nn2, Nn1; reflexivity). apply (rep_fn _ _ R).
+    rewrite lids_eq in Hy. fold (sids (ldrop_up slc)) in Hy. rewrite sids_drop_up in Hy.
+    rewrite lids_eq. cbn [flat_map]. rewrite lids_eq, app_nil_r. fold (sids slc). right. exact Hy.
+  - intros y Hy. replace (hnexte h') with (hnexte h) by (rewrite Ne2, Ne1; reflexivity). apply (rep_fe _ _ R).
+    rewrite leids_eq in Hy. fold (seids (ldrop_up slc)) in Hy. rewrite seids_drop_up in Hy.
+    rewrite leids_eq. cbn [flat_map]. rewrite leids_eq, app_nil_r. fold (seids slc). right. exact Hy.
+Qed.
+
+(** * the single-node loop of Case 1 *)
+Lemma one_neighbour_record h lt q hq : Rep h lt -> alookup q (hnodes h) = Some hq -> length (hneigh hq) = 1 ->
+  exists m b, hneigh hq = [m] /\ hbr hq = [b].
+Proof.
+  intros R Hq L1. pose proof (g_len _ (Rep_Good h lt R) q hq Hq) as Hl.
+  destruct (hneigh hq) as [|m [|m' ng]]; cbn in L1; try lia. destruct (hbr hq) as [|b [|b' bs]]; cbn in Hl; try lia.
+  exists m, b. split; reflexivity.
+Qed.
+
+Lemma single_path_loop_Rep : forall fuel h lt q, Rep h lt -> In q (lids lt) -> length (lids lt) < fuel ->
+  exists q' h' lt' hq', single_path_loop fuel q h = HOk (q', h') /\ Rep h' lt' /\
+    alookup q' (hnodes h') = Some hq' /\ (q' = hroot h' \/ length (hneigh hq') <> 1).
+Proof.
+  induction fuel as [|f IH]; intros h lt q R Hin Hf; [lia|].
+  cbn [single_path_loop]. pose proof (proj1 (rep_nodes _ _ R q) Hin) as Hq.
+  destruct (alookup q (hnodes h)) as [hq|] eqn:Eq; [clear Hq|congruence].
+  unfold get_node. rewrite Eq. cbn [hbind].
+  destruct (Nat.eqb_spec (hroot h) q) as [Er|Nr]; cbn [negb andb].
+  { exists q, h, lt, hq. split; [reflexivity|]. split; [exact R|]. split; [exact Eq|]. left. symmetry. exact Er. }
+  destruct (Nat.eqb_spec (length (hneigh hq)) 1) as [L1|L1].
+  2:{ exists q, h, lt, hq. split; [reflexivity|]. split; [exact R|]. split; [exact Eq|]. right. exact L1. }
+  destruct (one_neighbour_record h lt q hq R Eq L1) as (m & b & Hng & Hbr).
+  destruct (leaf_view h lt q hq m b R Eq Hng Hbr (not_eq_sym Nr)) as (p & nm & cm & l1 & l2 & eix & nmx & cmx & Hsub).
+  destruct (DL_facts h lt R p m nm cm l1 l2 b eix q nmx cmx Hsub)
+    as (hQ & hx & c1 & c2 & HQ & Hx0 & _ & _ & _ & _ & _ & _ & _ & _ & _ & Hex & _).
+  destruct (drop_leaf_Rep h lt R p m nm cm l1 l2 b eix q nmx cmx Hsub) as (h1 & hQ1 & Ev & R1 & HQ1 & HQ' & _ & _ & Nsame & _ & Hgone).
+  unfold nth_res. rewrite Hbr. cbn [nth_error hbind]. unfold get_edge. rewrite Hex. cbn [hbind hleft].
+  destruct (del_neighbor m q h) as [h0| |] eqn:E0; cbn [hbind] in Ev; try discriminate. cbn [hbind]. rewrite Ev. cbn [hbind].
+  set (lt1 := lreplace m (LNode m nm cm (l1 ++ l2)) lt) in *.
+  assert (HinQ : In m (lids lt1)) by (apply (rep_nodes _ _ R1); congruence).
+  assert (Hlen : length (lids lt1) < f).
+  { assert (S (length (lids lt1)) <= length (lids lt)); [|lia].
+    apply (NoDup_incl_length (l := q :: lids lt1)).
+    - constructor; [|exact (rep_nd _ _ R1)]. intros Hy. apply (rep_nodes _ _ R1) in Hy. congruence.
+    - intros y [<-|Hy]; [exact Hin|]. apply (rep_nodes _ _ R1) in Hy. apply (rep_nodes _ _ R).
+      destruct (Nat.eq_dec y m) as [->|Nm]; [congruence|]. destruct (Nat.eq_dec y q) as [->|Nq]; [congruence|].
+      rewrite <- (Nsame y Nm Nq). exact Hy. }
+  exact (IH h1 lt1 m R1 HinQ Hlen).
+Qed.
+
+(** * the tail (Case 2 / Case 3) on any node of a represented heap *)
+Lemma suppress_tail_good h lt name i h' : Rep h lt -> In i (lids lt) -> suppress_tail name i h = HOk h' -> Good h'.
+Proof.
+  intros R Hin E. pose proof (proj1 (rep_nodes _ _ R i) Hin) as Hi.
+  destruct (alookup i (hnodes h)) as [hi|] eqn:Ei; [clear Hi|congruence].
+  destruct (Rep_view h lt R i hi Ei) as (p & nm & cm & sl & V1 & V2 & V3 & _).
+  assert (Lsl : length (hneigh hi) = length sl).
+  { pose proof (Forall2_length' _ _ _ V3) as X. rewrite <- (slots_of_fst hi V2), map_length. exact X. }
+  destruct (Nat.eq_dec (length sl) 2) as [L2|L2].
+  - destruct p as [[P0 eP0]|].
+    + destruct (suppress_inner_Rep h lt name P0 eP0 i nm cm sl R V1 L2) as (h2 & lt2 & E2 & R2).
+      rewrite E in E2. injection E2 as <-. eapply Rep_Good. exact R2.
+    + destruct (lsubs_ctx _ _ _ _ V1) as [E0|[m [e E0]]]; [|discriminate]. injection E0 as E0.
+      assert (Hr : hroot h = i) by (rewrite (rep_root _ _ R), <- E0; reflexivity).
+      assert (L2' : length (lslots lt) = 2) by (rewrite <- E0; exact L2).
+      destruct (suppress_root_Rep h lt name R L2') as [(h2 & lt2 & E2 & R2)|[msg E2]]; rewrite Hr in E2; rewrite E in E2.
+      * injection E2 as <-. eapply Rep_Good. exact R2.
+      * discriminate.
+  - unfold suppress_tail in E. unfold get_node at 1 in E. rewrite Ei in E. cbn [hbind] in E.
+    destruct (Nat.eqb_spec (length (hneigh hi)) 2) as [X|_]; [lia|]. injection E as <-. eapply Rep_Good. exact R.
+Qed.
+
+(** * Tree.removeTip keeps the heap good *)
+Theorem remove_tip_heap_good h name tip h' : Good h -> remove_tip_heap name tip h = HOk h' -> Good h'.
+Proof.
+  intros G E. destruct (Good_Rep h G) as [lt R]. rewrite remove_tip_heap_eq in E.
+  unfold get_node at 1 in E. destruct (alookup tip (hnodes h)) as [ht|] eqn:Et; [|discriminate]. cbn [hbind] in E.
+  destruct (Nat.eqb_spec (length (hneigh ht)) 1) as [L1|L1]; cbn [negb] in E; [|discriminate].
+  destruct (one_neighbour_record h lt tip ht R Et L1) as (m & b & Hng & Hbr).
+  unfold nth_res at 1 in E. rewrite Hbr in E. cbn [nth_error hbind] in E.
+  assert (Hs : has_slot h tip m b) by (exists ht; split; [exact Et|unfold slots_of; rewrite Hng, Hbr; left; reflexivity]).
+  destruct (g_slot_exists _ G tip m b Hs) as [_ Hb]. destruct (alookup b (hedges h)) as [bd0|] eqn:Eb; [clear Hb|congruence].
+  unfold get_edge at 1 in E. rewrite Eb in E. cbn [hbind] in E.
+  destruct (Nat.eq_dec tip (hroot h)) as [Er|Nr].
+  { (* the tip is the root: internal is the tip itself, delNeighbor fails *)
+    exfalso. destruct (g_rank _ G) as [rank [R0 R1]]. pose proof (R1 b bd0 Eb) as Hrk.
+    destruct (g_ends _ G tip m b bd0 Hs Eb) as [[X Y]|[X Y]].
+    - rewrite X in E. unfold del_neighbor, get_node in E. rewrite Et in E. cbn [hbind] in E. rewrite Hng in E.
+      cbn [index_of] in E. destruct (Nat.eqb_spec m tip) as [E0|_]; [|discriminate].
+      rewrite X, Y, E0 in Hrk. lia.
+    - rewrite Y, Er, R0 in Hrk. discriminate. }
+  destruct (leaf_view h lt tip ht m b R Et Hng Hbr Nr) as (p & nm & cm & l1 & l2 & eix & nmx & cmx & Hsub).
+  destruct (DL_facts h lt R p m nm cm l1 l2 b eix tip nmx cmx Hsub)
+    as (hQ & hx & c1 & c2 & HQ & Hx0 & _ & _ & _ & _ & _ & _ & _ & _ & _ & Hex & _).
+  destruct (drop_leaf_Rep h lt R p m nm cm l1 l2 b eix tip nmx cmx Hsub) as (h1 & hQ1 & Ev & R1 & HQ1 & HQ' & _ & _ & _ & _ & _).
+  rewrite Hex in Eb. injection Eb as <-. cbn [hleft] in E.
+  destruct (del_neighbor m tip h) as [h0| |] eqn:E0; cbn [hbind] in Ev, E; try discriminate. rewrite Ev in E. cbn [hbind] in E.
+  set (lt1 := lreplace m (LNode m nm cm (l1 ++ l2)) lt) in *.
+  assert (HinQ : In m (lids lt1)) by (apply (rep_nodes _ _ R1); congruence).
+  unfold get_node at 1 in E. rewrite HQ' in E. cbn [hbind] in E.
+  match type of E with context [if ?c then _ else _] => destruct c eqn:Elen end.
+  2:{ cbn [hbind] in E. exact (suppress_tail_good h1 lt1 name m h' R1 HinQ E). }
+  (* Case 1: the single-node loop *)
+  destruct (single_path_loop_Rep (hfuel h1) h1 lt1 m R1 HinQ) as (q' & h2 & lt2 & hq' & Lp & R2 & Hq' & Hstop).
+  { unfold hfuel. pose proof (lids_le_nodes h1 lt1 (rep_nd _ _ R1) (fun y Hy => proj1 (rep_nodes _ _ R1 y) Hy)). lia. }
+  rewrite Lp in E. cbn [hbind] in E. unfold get_node at 1 in E. rewrite Hq' in E. cbn [hbind] in E.
+  assert (Hinq' : In q' (lids lt2)) by (apply (rep_nodes _ _ R2); congruence).
+  match type of E with context [if ?c then _ else _] => destruct c eqn:Efin end.
+  2:{ cbn [hbind] in E. exact (suppress_tail_good h2 lt2 name q' h' R2 Hinq' E). }
+  (* Case 1b *)
+  apply andb_true_iff in Efin. destruct Efin as [Fr Fl]. apply Nat.eqb_eq in Fr, Fl.
+  destruct lt2 as [r2 nm2 cm2 sl2]. pose proof (rep_root _ _ R2) as Hroot2. cbn [lid] in Hroot2.
+  assert (Er2 : r2 = q') by congruence. rewrite Er2 in *. clear Er2.
+  pose proof (rep_shape _ _ R2) as Sh2. pose proof Sh2 as Sh2'. apply shape_unfold in Sh2. destruct Sh2 as [hq2 (A1 & A2 & A3 & A4 & A5)].
+  rewrite Hq' in A1. injection A1 as <-.
+  destruct (shape_length _ _ _ _ _ _ _ _ Sh2' Hq') as [Ls _].
+  destruct sl2 as [|s2 [|s3 sl2]]; cbn in Ls; try lia.
+  pose proof (rep_wf _ _ R2) as W2. apply lwf_iff in W2. destruct W2 as [W20 _].
+  destruct s2 as [[[ec eic] [c nmc cmc slc]]|]; [|cbn in W20; discriminate].
+  apply Forall2_cons_inv_r in A5. destruct A5 as ([c0 e0] & tl & Esl & Ok0 & A5). inversion A5. subst tl. clear A5.
+  cbn [slot_ok fst snd lid] in Ok0. destruct Ok0 as (_ & <- & <- & _).
+  assert (Hng' : hneigh hq' = [c]).
+  { unfold slots_of in Esl. destruct (hneigh hq') as [|a [|a' ng]], (hbr hq') as [|b' [|b'' bs]]; cbn in A4, Esl; try discriminate; try lia.
+    injection Esl as -> _. reflexivity. }
+  rewrite Hng' in E. cbn [nth_res nth_error hbind] in E.
+  destruct (drop_root_Rep h2 q' nm2 cm2 ec eic c nmc cmc slc R2) as (h3 & E3 & R3).
+  destruct (del_neighbor c q' (set_root h2 c)) as [h4| |] eqn:E4; cbn [hbind] in E3, E; try discriminate.
+  rewrite E3 in E. cbn [hbind] in E. injection E as <-. eapply Rep_Good. exact R3.
+Qed.
